@@ -264,10 +264,8 @@ func c03Run(p c03Prog) (v *drv.Violation, waited bool, mixed bool) {
 	}
 	done := make(chan struct{})
 	go func() { wg.Wait(); close(done) }()
-	select {
-	case <-done:
-	case <-time.After(drv.HangDeadline):
-		return drv.Violf("the program did not terminate within %v (lost wake-up or leaked lock)", drv.HangDeadline), false, false
+	if h, why := drv.WaitOrHang(done); h {
+		return drv.Violf("the program did not terminate within the deadline (lost wake-up or leaked lock): %s", why), false, false
 	}
 	if viol != nil {
 		return viol, false, false
